@@ -613,6 +613,54 @@ fn start_scp(bin: &str, out_dir: &str, non_blocking: bool) -> Result<Scp, String
     Err("could not start storescp".into())
 }
 
+// ---- DIMSE messages for the scripted requestor, hand-encoded in Implicit VR Little Endian ----
+fn ivr_el(g: u16, e: u16, mut val: Vec<u8>, pad: u8) -> Vec<u8> {
+    if val.len() % 2 == 1 {
+        val.push(pad);
+    }
+    let mut v = Vec::new();
+    v.extend_from_slice(&g.to_le_bytes());
+    v.extend_from_slice(&e.to_le_bytes());
+    v.extend_from_slice(&(val.len() as u32).to_le_bytes());
+    v.extend_from_slice(&val);
+    v
+}
+fn ivr_ui(g: u16, e: u16, s: &str) -> Vec<u8> {
+    ivr_el(g, e, s.as_bytes().to_vec(), 0)
+}
+fn ivr_us(g: u16, e: u16, x: u16) -> Vec<u8> {
+    ivr_el(g, e, x.to_le_bytes().to_vec(), 0)
+}
+/// command set = (0000,0000) group length + the elements
+fn command_set(elems: Vec<Vec<u8>>) -> Vec<u8> {
+    let body: Vec<u8> = elems.concat();
+    let mut v = ivr_el(0, 0, (body.len() as u32).to_le_bytes().to_vec(), 0);
+    v.extend_from_slice(&body);
+    v
+}
+fn c_echo_rq(msg_id: u16) -> Vec<u8> {
+    command_set(vec![ivr_ui(0, 2, VERIFICATION), ivr_us(0, 0x100, 0x0030), ivr_us(0, 0x110, msg_id), ivr_us(0, 0x800, 0x0101)])
+}
+const LATE_INSTANCE: &str = "1.2.826.0.1.3680043.9.9999.30.1";
+fn c_store_rq(msg_id: u16) -> Vec<u8> {
+    command_set(vec![
+        ivr_ui(0, 2, CT_STORAGE),
+        ivr_us(0, 0x100, 0x0001),
+        ivr_us(0, 0x110, msg_id),
+        ivr_us(0, 0x700, 0),
+        ivr_us(0, 0x800, 0x0000),
+        ivr_ui(0, 0x1000, LATE_INSTANCE),
+    ])
+}
+fn small_dataset() -> Vec<u8> {
+    [ivr_ui(8, 0x16, CT_STORAGE), ivr_ui(8, 0x18, LATE_INSTANCE), ivr_el(0x10, 0x10, b"LATE^DATA".to_vec(), b' ')].concat()
+}
+fn pdv(ctx: u8, command: bool, data: Vec<u8>) -> Pdu {
+    Pdu::PData {
+        data: vec![PDataValue { presentation_context_id: ctx, value_type: if command { PDataValueType::Command } else { PDataValueType::Data }, is_last: true, data }],
+    }
+}
+
 fn run_scp(args: &std::collections::HashMap<String, String>) {
     let bin = &args["bin"];
     let n: usize = args["n"].parse().unwrap();
@@ -633,6 +681,7 @@ fn run_scp(args: &std::collections::HashMap<String, String>) {
     let mut events = 0usize;
     let mut failed = Vec::new();
     let mut answered = 0usize;
+    let mut late_cases = 0usize;
     for i in 0..n {
         let target = format!("127.0.0.1:{}", scp.port).parse().unwrap();
         let proxy = Proxy::start(target, 64);
@@ -647,32 +696,73 @@ fn run_scp(args: &std::collections::HashMap<String, String>) {
         };
         let _ = assoc.inner_stream().set_nodelay(true);
         let ctx = assoc.presentation_contexts()[0].id;
-        // schedule: some data PDUs, then one terminal call (the first cases are fixed)
+        // schedule: some data PDUs, then one terminal call (the first cases are fixed).
+        // Cases 4, 5 (and a share of the later ones) are a scripted requestor that takes the
+        // A-RELEASE-RP but keeps its socket open and goes on with a C-ECHO / a complete C-STORE.
+        let late = if i == 4 { 1 } else if i == 5 { 2 } else if i >= 6 && rng.below(4) == 0 { 1 + rng.below(2) as usize } else { 0 };
         let nsend = if i < 4 { i % 3 } else { rng.below(4) as usize };
-        let term = if i < 4 { [Call::Release, Call::Release, Call::Abort, Call::Drop][i] } else { *rng.pick(&[Call::Release, Call::Release, Call::Release, Call::Abort, Call::Drop]) };
+        let term = if late > 0 { Call::Release } else if i < 4 { [Call::Release, Call::Release, Call::Abort, Call::Drop][i] } else { *rng.pick(&[Call::Release, Call::Release, Call::Release, Call::Abort, Call::Drop]) };
         let mut api = Vec::new();
         for k in 0..nsend {
             let r = assoc.send(&data_pdu(ctx));
             api.push(json!({"seq": k, "call": "send", "ret": if r.is_ok() { "ok".to_string() } else { format!("err:{}", err_class(&r.unwrap_err())) }}));
         }
-        let (state, ret) = match term {
-            Call::Release => match assoc.release() {
-                Ok(()) => ("Released", "ok".to_string()),
-                Err(e) => ("Failed", format!("err:{}", err_class(&e))),
-            },
-            Call::Abort => {
-                let r = assoc.abort();
-                ("Aborted", if r.is_ok() { "ok".into() } else { "err".into() })
+        let (state, ret) = if late > 0 {
+            // A-RELEASE-RQ by hand; the library's release() would close the socket after the reply
+            let sent = assoc.send(&Pdu::ReleaseRQ);
+            match sent.and_then(|_| assoc.receive()) {
+                Ok(Pdu::ReleaseRP) => {
+                    let mut outcome = Vec::new();
+                    let msgs: Vec<Pdu> = if late == 1 {
+                        vec![pdv(ctx, true, c_echo_rq(7))]
+                    } else {
+                        vec![pdv(ctx, true, c_store_rq(8)), pdv(ctx, false, small_dataset())]
+                    };
+                    for m in &msgs {
+                        outcome.push(match assoc.send(m) {
+                            Ok(()) => "sent".to_string(),
+                            Err(e) => format!("send-err:{}", err_class(&e)),
+                        });
+                    }
+                    // what comes back on the released association?
+                    outcome.push(match assoc.receive() {
+                        Ok(p) => format!("got:{}", p.short_description()),
+                        Err(e) => format!("nothing:{}", err_class(&e)),
+                    });
+                    late_cases += 1;
+                    drop(assoc);
+                    ("ReleasedLate", format!("rp, then {} -> {}", if late == 1 { "C-ECHO-RQ" } else { "C-STORE-RQ + data set" }, outcome.join(",")))
+                }
+                Ok(p) => {
+                    drop(assoc);
+                    ("Failed", format!("err:unexpected:{}", p.short_description()))
+                }
+                Err(e) => {
+                    drop(assoc);
+                    ("Failed", format!("err:{}", err_class(&e)))
+                }
             }
-            _ => {
-                drop(assoc);
-                ("Dropped", "ok".to_string())
+        } else {
+            match term {
+                Call::Release => match assoc.release() {
+                    Ok(()) => ("Released", "ok".to_string()),
+                    Err(e) => ("Failed", format!("err:{}", err_class(&e))),
+                },
+                Call::Abort => {
+                    let r = assoc.abort();
+                    ("Aborted", if r.is_ok() { "ok".into() } else { "err".into() })
+                }
+                _ => {
+                    drop(assoc);
+                    ("Dropped", "ok".to_string())
+                }
             }
         };
-        api.push(json!({"seq": nsend, "call": call_name(term), "ret": ret}));
+        api.push(json!({"seq": nsend, "call": if late > 0 { "scripted-release-then-data" } else { call_name(term) }, "ret": ret}));
         let log = proxy.finish();
         let mut ev = Vec::new();
-        ev.push(json!({"ev": "reset", "acceptor": if nb { "storescp --non-blocking" } else { "storescp" }, "sched": format!("send*{nsend},{}", call_name(term))}));
+        ev.push(json!({"ev": "reset", "raw": late > 0, "acceptor": if nb { "storescp --non-blocking" } else { "storescp" },
+                       "sched": format!("send*{nsend},{}{}", call_name(term), match late { 1 => ",keep-open,c-echo", 2 => ",keep-open,c-store", _ => "" })}));
         let (k, kinds) = wire_to_trace(&log, &mut ev, false);
         if kinds.iter().any(|s| s == "ac:ReleaseRP") {
             answered += 1;
@@ -689,6 +779,7 @@ fn run_scp(args: &std::collections::HashMap<String, String>) {
     w.finish();
     rep.extra.insert("events".into(), json!(events));
     rep.extra.insert("release_answered".into(), json!(answered));
+    rep.extra.insert("late_data_cases".into(), json!(late_cases));
     rep.extra.insert("setup_failures".into(), json!(failed));
     rep.print();
 }
